@@ -102,13 +102,27 @@ func runQueryProp(prop string, seed int64, tier string, out string) {
 			w.tables = append(w.tables, t)
 			shard.defs = append(shard.defs, t.coqDef())
 		}
+		var corpusTable *qTable
+		if prop == "C07" && wi == 0 {
+			// corpus: finding int-float-beyond-2p53.  SortValue.Less compares an integer with a float through
+			// float64(integer): 2^53+1 and 2^53 both tie with the float 2^53 but not with each other, so the
+			// comparator is no strict weak order and 2^53 can stay after 2^53+1 (refuted in Properties/C07.v)
+			corpusTable = &qTable{name: "tcorp", cols: []string{"c1", "c2"}, coq: "w0_tcorp",
+				rows: [][]*string{{sp("1"), sp("9007199254740993")}, {sp("2"), sp("9007199254740992.0")}, {sp("3"), sp("9007199254740992")}}}
+			writeCSV(sc.Path("tcorp.csv"), corpusTable.cols, corpusTable.rows)
+			shard.defs = append(shard.defs, corpusTable.coqDef())
+		}
 		nq := perWorld
 		if big {
 			nq = perWorld / 2
 		}
 		for qi := 0; qi < nq; qi++ {
 			var q qQuery
-			if prop == "C03" && wi == 0 && qi == 0 {
+			if corpusTable != nil && qi == 0 {
+				q = qQuery{mode: 2, shape: "corpus", tags: []string{"int-float-beyond-2p53"}} // tag of a fixed finding: suppresses nothing
+				q.sql = "SELECT o.c1, o.c2 FROM tcorp AS o ORDER BY o.c2"
+				q.coq = fmt.Sprintf("(Q (BSelect (SrcTable 2 %s) None None None [SExpr (ECol 0); SExpr (ECol 1)] false) [mkO (OSel 1) Asc None] None None)", corpusTable.coq)
+			} else if prop == "C03" && wi == 0 && qi == 0 {
 				// corpus: finding join-after-cross-join (the left operand of INNER/LEFT/RIGHT/FULL JOIN .. ON that
 				// follows an unparenthesised CROSS JOIN is only the last table, so the first one is not
 				// visible in the ON clause)
